@@ -353,7 +353,7 @@ func (c *Ctx) havocLoop(fr *Frame, li *loopInfo, entry *State, reach string) *St
 		old := st.trN
 		st.trN = c.havoc("trn", "Int")
 		c.assume(reach, fmt.Sprintf("(>= %s %s)", st.trN, old))
-		for _, a := range []string{"TR_fn", "TR_a1", "TR_a2", "TR_a3", "TR_a4", "TR_a5", "TR_a6", "TR_res", "TR_res2", "TR_len", "TR_sa_arr", "TR_sa_off", "TR_sa_len", "TR_sa_cap", "TR_sb_arr", "TR_sb_off", "TR_sb_len", "TR_sb_cap", "TR_sr_arr", "TR_sr_off", "TR_sr_len", "TR_sr_cap"} {
+		for _, a := range []string{"TR_fn", "TR_callee", "TR_a1", "TR_a2", "TR_a3", "TR_a4", "TR_a5", "TR_a6", "TR_res", "TR_res2", "TR_len", "TR_sa_arr", "TR_sa_off", "TR_sa_len", "TR_sa_cap", "TR_sb_arr", "TR_sb_off", "TR_sb_len", "TR_sb_cap", "TR_sr_arr", "TR_sr_off", "TR_sr_len", "TR_sr_cap"} {
 			before := c.arr(st, a, "Int")
 			st.heap[a] = c.havoc(a, "(Array Int Int)")
 			k := c.fresh("k")
